@@ -10,7 +10,8 @@
    UpdateWithIncomingHLV replaces the local vector by cv 2@s2, mv {s1:1, s2:1}: replica 1's own version
    2@s1 is listed nowhere (UpdateHistory ignores the result of AddVersionToPV for the other side's cv
    when its source is in mv with an older value). *)
-From SG Require Import Base.Prelude C10.AMap C10.HLV C10.HLVProofs C10.Replica C10.ReplicaProofs.
+From SG Require Import Base.Prelude C10.AMap C10.HLV C10.HLVProofs C10.HLVOps C10.Replica C10.ReplicaProofs
+                       C10.HLVUpdate C10.HLVCompact C10.HLVCodec C10.HLVCodecProofs C10.HLVWire C10.HLVLegacy.
 Open Scope N_scope.
 
 Definition same_merge_history : list ev :=
@@ -46,7 +47,9 @@ Proof.
   assert (E : src (rh (run same_merge_history 1)) <> 0) by (vm_compute; discriminate).
   destruct (inv_repr _ H 1 E) as [_ [_ DO]].
   specialize (DO (1, 2)). assert (I : In (1, 2) (rseen (run same_merge_history 1))) by (vm_compute; tauto).
-  specialize (DO I). vm_compute in DO. discriminate.
+  specialize (DO I).
+  assert (X : dominates (rh (run same_merge_history 1)) (1, 2) = false) by (vm_compute; reflexivity).
+  rewrite X in DO. discriminate DO.
 Qed.
 
 (* a later consequence: replica 1 then reports its own earlier version 2@1 (held by replica 3 after a
@@ -57,4 +60,125 @@ Lemma known_iff_seen_refuted :
 Proof.
   exists [EEdit 1 0; EEdit 2 0; EPull 3 1 0; EPull 1 2 0; EPull 2 3 0; EPull 3 1 0; EPull 1 2 0], 1, 3.
   vm_compute. split; [tauto | reflexivity].
+Qed.
+
+
+(* ==================================================================================================
+   Deepening round.
+   ================================================================================================== *)
+
+(* A further consequence of the same defect, with an adversarial clock: after the same-merge acceptance
+   replica 1's vector has forgotten its own version 2@1; its clock is restarted and reads an early time; the
+   next local edit computes the floor from the vector (1) and generates 2@1 AGAIN -- a second, different
+   revision under an existing version.  So "versions generated locally strictly increase per source" fails
+   for unrestricted histories (it holds for clean ones: C10_local_versions_increase, and against the
+   recorded versions for all: C10_local_versions_increase_all).  Replayed on the real API by the harness
+   (corpus history of verif_c10_deep_test.go: the correspondence confirms the generated value). *)
+Lemma local_versions_increase_full_refuted :
+  exists evs e r v q x, generated e (snd (step (run evs) e)) = Some (r, v) /\
+                        In (r, x) (rseen (run evs q)) /\ v <= x.
+Proof.
+  exists (same_merge_history ++ [ERestart 1]), (EEdit 1 0), 1, 2, 1, 2.
+  vm_compute. split; [reflexivity|]. split; [tauto|]. discriminate.
+Qed.
+
+(* Model level only (the sets below are not causally closed, no history reaches them): that the incoming
+   vector dominates the local current version -- the test on which IsInConflict accepts a pull other than by
+   the same-merge rule -- does not by itself imply that UpdateWithIncomingHLV loses nothing; the extra
+   hypothesis of C10_update_repr_noconflict (or [incl Sl Si], or reachability in a clean history) is needed. *)
+Lemma update_repr_dominating_only_refuted :
+  exists hl hi Sl Si, good Sl /\ good Si /\ repr hl Sl /\ repr hi Si /\
+    is_in_conflict hl hi = NoConflict /\ dominates hi (cv hl) = true /\
+    ~ repr (update_with_incoming hl hi) (Sl ++ Si).
+Proof.
+  set (hl := mkH 1 5 [] [(2, 9)]). set (hi := mkH 2 3 [] [(1, 5)]).
+  set (Sl := [(1, 5); (2, 9)]). set (Si := [(2, 3); (1, 5)]).
+  assert (Gl : good Sl) by (intros s v [E|[E|[]]]; inv E; lia).
+  assert (Gi : good Si) by (intros s v [E|[E|[]]]; inv E; lia).
+  assert (Rl : repr hl Sl).
+  { split; [|split].
+    - constructor; cbn; try lia; try constructor; try tauto; try constructor.
+    - intros p [E|[[]|[E|[]]]]; subst; cbn; auto.
+    - intros p [E|[E|[]]]; subst; vm_compute; reflexivity. }
+  assert (Ri : repr hi Si).
+  { split; [|split].
+    - constructor; cbn; try lia; try constructor; try tauto; try constructor.
+    - intros p [E|[[]|[E|[]]]]; subst; cbn; auto.
+    - intros p [E|[E|[]]]; subst; vm_compute; reflexivity. }
+  exists hl, hi, Sl, Si.
+  split; [exact Gl|]. split; [exact Gi|]. split; [exact Rl|]. split; [exact Ri|].
+  split; [vm_compute; reflexivity|]. split; [vm_compute; reflexivity|].
+  intros R. pose proof (proj1 (update_nothing_lost_iff hl hi Sl Si Gl Gi Rl Ri) R) as K.
+  specialize (K (2, 9) (or_intror (or_introl eq_refl))). vm_compute in K. discriminate.
+Qed.
+
+(* GENUINE DEFECT (wire form, legacy peer): a vector with merge versions and no previous versions, sent to a
+   peer that holds a legacy revision (history = hlvHistory , revID , revTreeHistory...).  toHistoryForHLV gives
+   "mv1,mv2;" , the sender appends ",3-abc" , the receiver glues  cv,mv1,mv2;,3-abc  and
+   extractHLVFromBlipString fails on the empty entry in front of the legacy id ("Malformed version string ,
+   delimiter not found") -- the revision is refused with 422.  Monitor signature
+   wire-legacy-mv-only-history-rejected (harness stream wire-legacy, real buildRevHistory /
+   blipRevMessageProperties / GetHLVFromRevMessage). *)
+Definition wl_vec : svec := mkS 0 [97] 5 [([98], 3)] [].      (* cv 5@a, mv {b:3}, no pv *)
+Definition wl_legacy : list bytes := [[51; 45; 97; 98; 99]].   (* "3-abc" *)
+
+Lemma wire_legacy_mv_only_refuted :
+  sendable wl_vec /\ wl_legacy <> [] /\ (forall x, In x wl_legacy -> legacy_ok x) /\
+  history_legacy wl_vec wl_legacy = [51; 64; 98; 59; 44; 51; 45; 97; 98; 99] /\     (* "3@b;,3-abc" *)
+  extract_hlv (wire_join (cv_string wl_vec) (history_legacy wl_vec wl_legacy)) = None.
+Proof.
+  split; [|split; [discriminate|split; [|split; vm_compute; reflexivity]]].
+  - unfold sendable, wl_vec. cbn [s_src s_ver s_mv s_pv map fst].
+    assert (GE : forall k x, In k [[97]; [98]] -> x < two64 -> good_entry (k, x)).
+    { intros k x [E|[E|[]]] L; subst;
+        (split; [split; [discriminate | repeat constructor; unfold COMMA, SEMI; lia] | exact L]). }
+    split; [apply GE; [cbn; auto | unfold two64; lia]|].
+    split; [intros e [E|[]]; subst; apply GE; [cbn; auto | unfold two64; lia]|].
+    split; [intros e []|].
+    split; [repeat constructor; tauto|]. split; [constructor|]. split; [intros k []|].
+    intros [E|[]]. discriminate.
+  - intros x [E|[]]. subst. unfold legacy_ok. split; [discriminate|]. split; [reflexivity|].
+    split; [vm_compute; reflexivity|]. split; [vm_compute; reflexivity|].
+    repeat constructor; unfold COMMA, SEMI; lia.
+Qed.
+
+Theorem wire_legacy_full_statement_refuted :
+  ~ (forall v lg, sendable v -> lg <> [] -> (forall x, In x lg -> legacy_ok x) ->
+     exists v', extract_hlv (wire_join (cv_string v) (history_legacy v lg)) = Some (v', lg) /\ svec_equiv v' (wire_view v)).
+Proof.
+  intros H. destruct wire_legacy_mv_only_refuted as [A [B [C [_ D]]]].
+  destruct (H wl_vec wl_legacy A B C) as [v' [E _]]. rewrite D in E. discriminate.
+Qed.
+
+(* ---------- BY DESIGN, not defects: compaction is sound (C10_compact_sound) but not complete ---------- *)
+(* local compaction: the incoming revision was already known, afterwards it is reported as a conflict *)
+Lemma compact_known_becomes_conflict :
+  exists hl hi c hl', compact_okb hl c hl' = true /\
+    is_in_conflict hl hi = AlreadyPresent /\ is_in_conflict hl' hi = Conflict.
+Proof.
+  exists (mkH 1 9 [] [(2, 1); (3, 2); (4, 3); (5, 4); (6, 5)]), (mkH 2 1 [] []), 3,
+         (mkH 1 9 [] [(4, 3); (5, 4); (6, 5)]).
+  vm_compute. repeat split.
+Qed.
+
+(* compaction on the incoming side: a fast-forward becomes a conflict *)
+Lemma compact_fast_forward_becomes_conflict :
+  exists hl hi c hi', compact_okb hi c hi' = true /\
+    is_in_conflict hl hi = NoConflict /\ is_in_conflict hl hi' = Conflict.
+Proof.
+  exists (mkH 2 1 [] []), (mkH 1 9 [] [(2, 1); (3, 2); (4, 3); (5, 4); (6, 5)]), 3,
+         (mkH 1 9 [] [(4, 3); (5, 4); (6, 5)]).
+  vm_compute. repeat split.
+Qed.
+
+(* together with the same-merge rule: a revision that was already known (and is OLDER than the local one) is
+   accepted again after local compaction, and UpdateWithIncomingHLV then goes back to it *)
+Lemma compact_known_accepted_by_same_merge :
+  exists hl hi c hl', compact_okb hl c hl' = true /\
+    is_in_conflict hl hi = AlreadyPresent /\ is_in_conflict hl' hi = NoConflict /\
+    cv (update_with_incoming hl' hi) = cv hi.
+Proof.
+  exists (mkH 1 9 [(7, 1); (8, 1)] [(2, 1); (3, 2); (4, 3); (5, 4); (6, 5)]), (mkH 2 1 [(7, 1); (8, 1)] []), 3,
+         (mkH 1 9 [(7, 1); (8, 1)] [(4, 3); (5, 4); (6, 5)]).
+  vm_compute. repeat split.
 Qed.
